@@ -332,3 +332,26 @@ CHECKS["C13"] = dict(
     technique="property-based testing (rapid): differential against a reference interpreter of the rule semantics",
     design_ref="DESIGN.md section 4, C13",
 )
+
+CHECKS["C15"] = dict(
+    pkg="c15", level="exploration",
+    props=[dict(name="TestPropExportImport", quick=360, thorough=16 * 1500, shards_quick=12, shards_thorough=16, timeout_quick=900, timeout_thorough=7200)],
+    rule="trees of depth <= 4 and fan-out <= 3 built on a real instance (node types from the built-in list, a unique marker "
+         "point per node, optional description, 0-4 points with YAML-significant / random / plain texts, values from a list "
+         "of awkward floats or random bits, keys \"\"/\"0\"/indices/map-like, tombstones 0-3, 0-2 edge points, node-id points "
+         "referring to nodes of the tree or outside it, deleted children, an occasional mirror inside the tree), exported with "
+         "client.ExportNodes and imported with client.ImportNodes under another node, under the root node or on a second "
+         "instance, with or without id preservation. Oracle: original and imported subtrees are walked in parallel (children "
+         "matched by marker): same live shape and types, same (type, key or \"0\", value, text, tombstone) per node, same edge "
+         "points modulo tombstone=0/nodeType, ids identical (preserve) or a bijection onto fresh ids applied consistently to "
+         "node-id references, only the top description gains \" (import)\", deleted nodes absent from the YAML. Non-trivial = "
+         ">= 3 levels, >= 1 cross reference and >= 1 YAML-significant text.",
+    assumptions=["scalars the YAML library alone does not round-trip are redirected and counted (known findings C15-F1, C15-F2)",
+                 "importing at the literal parent \"root\" (root replacement) is not generated",
+                 "a nats: timeout of the helpers' hard-coded 1 s request timeout makes a case inconclusive (counted)"],
+    level_text="Generated trees and import targets (rapid) against a structural comparison of the original and imported subtrees on real "
+               "instances.",
+    level_note="Trusted: the marker-based matching of children; the library self-check used only to delimit the two known findings.",
+    technique="property-based testing (rapid): round trip through ExportNodes/ImportNodes with structural tree comparison",
+    design_ref="DESIGN.md section 4, C15",
+)
